@@ -1,0 +1,45 @@
+//go:build verif && vectors
+
+// Contracts for the code behind the "vectors" build tag. They are checked against a signature stub of
+// go-faiss (/verif/stubs/go-faiss): the zapx code is the real code, the engine is only its assumed contract.
+package zap
+
+// ---- C19: engine failures surface as errors; reconstructed indexes are released ----
+
+//@ func (*faissVectorIndexSection).Persist returns (n, err)
+//@ thin
+//@ tags [C19]
+//@ propagates err from (*vectorIndexOpaque).writeVectorIndexes
+//@ end
+
+//@ func (*vectorIndexOpaque).writeVectorIndexes returns (offset, err)
+//@ thin
+//@ tags [C19]
+//@ propagates err from go-faiss.IndexFactory, (*go-faiss.IndexImpl).SetDirectMap, go-faiss.Index.Train, go-faiss.Index.AddWithIDs, go-faiss.WriteIndexIntoBuffer, (*CountHashWriter).Write
+//@ end
+
+//@ func freeReconstructedIndexes
+//@ thin
+//@ tags [C18,C19]
+//@ ghostset $pendingRecons = false
+//@ modifies *, ghost faissLive
+//@ end
+
+//@ func (*vectorIndexOpaque).flushVectorIndex returns (err)
+//@ thin
+//@ tags [C19]
+//@ propagates err from (*CountHashWriter).Write
+//@ end
+
+//@ func (*vectorIndexOpaque).mergeAndWriteVectorIndexes returns (err)
+//@ thin
+//@ tags [C18,C19]
+//@ requires !$pendingRecons
+//@ propagates err from go-faiss.ReadIndexFromBuffer, go-faiss.Index.ReconstructBatch, go-faiss.IndexFactory, (*go-faiss.IndexImpl).SetDirectMap, go-faiss.Index.Train, go-faiss.Index.AddWithIDs, go-faiss.WriteIndexIntoBuffer, (*vectorIndexOpaque).flushVectorIndex [C19]
+//@ ensures !$pendingRecons [C18,C19]
+//@ ensures chanClosed(closeCh) && !old(chanClosed(closeCh)) ==> err == seg.ErrClosed [C18]
+//@ local ensures faissIndex != nil ==> !faissLive(faissIndex.Index) [C19]
+//@ loop 1 invariant chanClosed(closeCh) == old(chanClosed(closeCh)) [C18]
+//@ loop 1 invariant !validMerge ==> !$pendingRecons [C19]
+//@ loop 2 invariant chanClosed(closeCh) == old(chanClosed(closeCh)) [C18]
+//@ end
